@@ -29,8 +29,12 @@ pub fn run(rep: &mut Rep) {
     let depth = if rep.quick() { 6 } else { 9 };
     // (session expiry interval, seconds since disconnection): >= 6 s away from the boundary so that the wall clock cannot decide
     let configs: Vec<(u32, u64)> = vec![(0, 0), (0, 1000), (100, 0), (100, 50), (100, 94), (100, 106), (100, 1000), (100, 1_000_000_000), (NEVER, 0), (NEVER, 1000), (NEVER, 1_000_000_000), (5_000_000, 4_999_000)];
-    rep.note(&format!("crash points: the connection is cut (EOF) after every path of <= {depth} actions over {{publish QoS 1/2, PUBACK, PUBREC ok/failing, PUBCOMP}}, then hook H1 backdates the disconnection and the context reconnects; x {} (expiry interval, elapsed) pairs incl. 0, finite before/after expiry (>= 6 s from the boundary), never; the second wire before any new request is compared with the model, then acknowledgements are delivered on the new connection", configs.len()));
-    for (ci, &(interval, ago)) in configs.iter().enumerate() {
+    // (requested interval, CONNACK override, elapsed): the interval in force is the server's when it sends one
+    let overrides: Vec<(u32, u32, u64)> = vec![(3600, 0, 1), (NEVER, 0, 1), (100, 1000, 500), (1000, 10, 100), (0, 500, 10), (100, NEVER, 100_000), (50, 50, 10)];
+    rep.note(&format!("crash points: the connection is cut (EOF) after every path of <= {depth} actions over {{publish QoS 1/2, PUBACK, PUBREC ok/failing, PUBCOMP}}, then hook H1 backdates the disconnection and the context reconnects; x {} (expiry interval, elapsed) pairs incl. 0, finite before/after expiry (>= 6 s from the boundary), never, and 7 cases where the CONNACK of the resuming connection overrides the requested interval (to 0, shorter, longer, never); the second wire before any new request is compared with the model, then acknowledgements are delivered on the new connection", configs.len()));
+    let mut all: Vec<(u32, Option<u32>, u64)> = configs.iter().map(|&(i, a)| (i, None, a)).collect();
+    all.extend(overrides.iter().map(|&(i, o, a)| (i, Some(o), a)));
+    for (ci, &(interval, over, ago)) in all.iter().enumerate() {
         let name = format!("exh-c{ci}");
         let seed = rep.seed;
         let d = if ci == 3 || ci == 5 || ci == 0 { depth } else { depth - 1 };
@@ -44,9 +48,12 @@ pub fn run(rep: &mut Rep) {
             // cut the connection
             w.eof();
             w.settle_check();
-            let exp = expired(interval, ago);
+            let exp = expired(over.unwrap_or(interval), ago);
             let (pubs, rels) = w.unfinished();
-            let resumed = w.resume(ago, Some(interval), exp);
+            let resumed = w.resume_with(ago, Some(interval), over, exp);
+            if over.is_some() {
+                rep.add("resumptions_with_connack_expiry_override", 1);
+            }
             rep.add("resumptions", 1);
             if exp {
                 rep.add("expired_sessions", 1);
@@ -69,7 +76,7 @@ pub fn run(rep: &mut Rep) {
                 w.eof();
                 w.settle_check();
                 let (p2, r2) = w.unfinished();
-                let again = w.resume(if interval == NEVER { 5 } else { 1 }, Some(interval), false);
+                let again = w.resume_with(if interval == NEVER { 5 } else { 1 }, Some(interval), over, false);
                 rep.add("second_resumptions", 1);
                 rep.add("publishes_expected_resent", p2.len() as i64);
                 rep.add("pubrels_expected_resent", r2.len() as i64);
